@@ -162,6 +162,11 @@ func cmdCheck(args []string) int {
 				engineFailures = append(engineFailures, fmt.Sprintf("%s: clause generated no obligation: %s %s", shortKey(u.key), c.Kind, c.Src))
 			}
 		}
+		for _, ga := range u.fc.GhostAt {
+			if ga.used == 0 {
+				engineFailures = append(engineFailures, fmt.Sprintf("%s: ghost site never reached: %s", shortKey(u.key), ga.Site))
+			}
+		}
 	}
 	if len(engineFailures) > 0 {
 		for _, e := range engineFailures {
